@@ -703,7 +703,7 @@ def run_case(rng, tier, res):
     if not T["stuck"]:
         p = T["cur"]
         if p is not None and T["pos"] < len(p["words"]):
-            res.violation("words_missing", "end of case: packet#%d has %d of %d words transferred" % (T["k"], T["pos"], len(p["words"])))
+            viol(p, None, "words_missing", "end of case: packet#%d has %d of %d words transferred" % (T["k"], T["pos"], len(p["words"])))
         if T["k"] + 1 != len(plan):
             res.violation("request_ignored", "%d packets requested while idle, %d accepted" % (len(plan), T["k"] + 1))
         if rxq or RX["job"] is not None:
